@@ -62,7 +62,7 @@ func (li SyncCommitteeSubnetBits) SetBit(i uint64, v bool) {
 }
 
 func (li SyncCommitteeSubnetBits) OnesCount() uint64 {
-	return bitfields.BitlistOnesCount(li)
+	return bitfields.BitvectorOnesCount(li)
 }
 
 type SyncCommitteeSubnetBitsView struct {
